@@ -9,3 +9,4 @@ import Mahotas.Proofs.PyBodyTiesC14
 import Mahotas.Proofs.PyBodyTiesC16
 import Mahotas.Proofs.PyBodyTiesC16Rc
 import Mahotas.Proofs.PyBodyTiesC20
+import Mahotas.Proofs.PyBodyTiesC20b
